@@ -225,14 +225,19 @@ def pairing (eps : B) (outkind : String) (c y0 y : List B) : B :=
 def fdEst (F : B → B) (e : Int) : B × B :=
   let h := hStep e
   let h2 := hStep (e + 1)
-  let d1 := BigF.div (F h - F (BigF.neg h)) (two * h)
+  let fp := F h
+  let fm := F (BigF.neg h)
+  let d1 := BigF.div (fp - fm) (two * h)
   let d2 := BigF.div (F h2 - F (BigF.neg h2)) (two * h2)
-  (d1, BigF.ofNat 4 * BigF.abs (d1 - d2))
+  -- Richardson estimate + resolution of the 192-bit arithmetic (a derivative below |F|·2⁻¹⁸⁰/h cannot be seen at all)
+  (d1, BigF.ofNat 4 * BigF.abs (d1 - d2) + BigF.div (hStep (-180) * (BigF.abs fp + BigF.abs fm)) (two * h))
 
-/-- plain central difference with step `2^e` -/
-def fdPlain (F : B → B) (e : Int) : B :=
+/-- plain central difference with step `2^e` and the resolution of the arithmetic at that step -/
+def fdPlain (F : B → B) (e : Int) : B × B :=
   let h := hStep e
-  BigF.div (F h - F (BigF.neg h)) (two * h)
+  let fp := F h
+  let fm := F (BigF.neg h)
+  (BigF.div (fp - fm) (two * h), BigF.div (hStep (-180) * (BigF.abs fp + BigF.abs fm)) (two * h))
 
 /-- Reply: the `n` derivatives followed by `n` error bars.  An entry whose plain difference quotient (step 2⁻⁴⁰) agrees
 with the model's reverse sweep to 2⁻⁴⁶ relative is returned with that tiny difference as its error bar; every other entry
@@ -255,11 +260,11 @@ def fdLeaf (eps : B) (p : Prog) (kinds : List String) (env : List (List B)) (c :
   let mut out : List B := []
   let mut bars : List B := []
   for j in List.range n do
-    let d0 := fdPlain (F j) (-40)
+    let (d0, res0) := fdPlain (F j) (-40)
     let b := AD.nth bp j
     if BigF.le (BigF.abs (d0 - b)) (hStep (-46) * (BigF.abs d0 + BigF.abs b) + hStep (-140)) then
       out := out ++ [d0]
-      bars := bars ++ [BigF.abs (d0 - b)]
+      bars := bars ++ [BigF.abs (d0 - b) + res0]
     else
       let mut best := fdEst (F j) (-40)
       if !(BigF.le best.2 (hStep (-34) * BigF.abs best.1 + hStep (-140))) then
